@@ -172,8 +172,12 @@ for d in sorted(glob.glob('/verif/seeded/*/')):
         by, also, ', '.join(kinds)[:160] or '—', STRENGTHENED.get(sid, 'caught by the check as first written')))
 new7 = '''## 7. Trusting the monitors: seeded changes
 
-1. Every check was run on the repaired tree at VERIF_SEED in {1,2,3,7,42} (quick) and at seeds 1,2 (thorough)
-   from fresh processes until silent apart from the listed known findings.
+1. Every check was run on the repaired tree from fresh processes until silent apart from the listed known
+   findings: quick tier at VERIF_SEED in {1,2,3,7,42} (also from a cold build cache, next to other jobs, and
+   twice under 40 spinning processes on the 16 cores) and, on the final tree, at eight further seeds
+   (4,5,6,8,9,10,100,12345: 160 runs, silent); thorough tier at seeds 1, 2 and 3.  The thorough runs found
+   two harness false alarms (§9: ORDER BY near-ties, the stuck-producer verdict) and one more genuine defect
+   (§6: C06-select-or-with-function-over-null) that the quick tier does not reach.
 2. **Seeded changes.**  For every property a fresh sub-agent was given *only* the property text and a scratch
    worktree, and asked for two realistic changes (A, B) that break the property while the library still compiles
    and its suite still passes, each needing something specific to manifest, with a demonstration test.  A second
